@@ -320,7 +320,8 @@ macro_rules! impl_div_for_primitive {
                 } else if rhs.is_one() {
                     // no-op
                 } else {
-                    *self = self.clone() / BigDecimal::from(rhs);
+                    // same shortcuts as `self / rhs` (exact half for +/-2)
+                    *self = self.clone() / rhs;
                 }
             }
         }
@@ -422,11 +423,8 @@ macro_rules! impl_div_for_primitive {
 
         impl DivAssign<$t> for BigDecimal {
             fn div_assign(&mut self, denom: $t) {
-                if !denom.is_normal() {
-                    *self = BigDecimal::zero()
-                } else {
-                    *self = self.clone() / BigDecimal::try_from(denom).unwrap()
-                };
+                // same shortcuts as `self / denom` (exact half for +/-2.0)
+                *self = self.clone() / denom;
             }
         }
     };
